@@ -50,6 +50,9 @@ pub struct RefTask {
     pub crash_limit: tako::gateway::CrashLimit,
     pub error: Option<String>,
     pub rq: crate::spec::RqSpec,
+    /// number of the record that submitted the task / that recorded its outcome
+    pub submitted_at: usize,
+    pub outcome_at: Option<usize>,
 }
 
 #[derive(Debug, Clone)]
@@ -281,10 +284,13 @@ pub fn fold(path: &Path) -> anyhow::Result<RefState> {
                     job.submits += 1;
                     // Records about tasks that are written before the submit of a restored
                     // history cannot exist; a task id is new here
+                    let record_no = st.n_records;
                     for (id, deps, priority, time_limit_s, crash_limit, rq) in
                         tasks_of(&request.submit_desc.task_desc)
                     {
                         job.tasks.entry(id).or_insert(RefTask {
+                            submitted_at: record_no,
+                            outcome_at: None,
                             deps,
                             state: RefTaskState::Waiting,
                             started_instances: Vec::new(),
@@ -348,31 +354,39 @@ pub fn fold(path: &Path) -> anyhow::Result<RefState> {
             }
             EventPayload::TaskFinished { task_id } => {
                 let k = tkey(task_id);
+                let n = st.n_records;
                 if let Some(t) = task_mut(&mut st, k) {
                     t.state = RefTaskState::Finished;
+                    t.outcome_at = Some(n);
                 }
             }
             EventPayload::TaskFailed { task_id, error } => {
                 let k = tkey(task_id);
+                let n = st.n_records;
                 if let Some(t) = task_mut(&mut st, k) {
                     t.state = RefTaskState::Failed;
                     t.error = Some(error);
+                    t.outcome_at = Some(n);
                 }
                 if let Some(j) = st.jobs.get_mut(&k.0) {
                     j.n_failed += 1;
                 }
             }
             EventPayload::TasksCanceled { task_ids } => {
+                let n = st.n_records;
                 for t in task_ids {
                     if let Some(t) = task_mut(&mut st, tkey(t)) {
                         t.state = RefTaskState::Canceled;
+                        t.outcome_at = Some(n);
                     }
                 }
             }
             EventPayload::TasksAborted { task_ids } => {
+                let n = st.n_records;
                 for t in task_ids {
                     if let Some(t) = task_mut(&mut st, tkey(t)) {
                         t.state = RefTaskState::Aborted;
+                        t.outcome_at = Some(n);
                     }
                 }
             }
